@@ -11,7 +11,7 @@ import os, re, json, random
 import vlib, proj
 from vlib import Verdict, run_tlc, vh, read_ndjson, write_ndjson, sample
 
-ORDER = ["G1", "C1", "GR", "C2", "GA", "GC", "CC", "GT", "CT", "GN", "Q", "QR", "C1b", "C0", "CN1", "CN2", "CA", "GCA", "CCA"]
+ORDER = ["G1", "C1", "GR", "C2", "GA", "GC", "CC", "GT", "CT", "GN", "Q", "QR", "C1b", "C0", "CN1", "CN2", "CA", "GCA", "CCA", "GCP"]
 SUGAR_CONSTRAINTS = {"CN1", "CN2"}
 SUGAR = {"GT", "GN"}
 
@@ -58,14 +58,14 @@ def render(case, k):
             stmts.append((it, "zz2 <== Sub2()(in1, s1);", []))
         elif it == "GA":
             continue
-        elif it in ("CA", "GCA", "CCA"):
+        elif it in ("CA", "GCA", "CCA", "GCP"):
             continue
     custom = case["kind"] == "custom"
     head = "pragma circom 2.0.0;\n" + ("pragma custom_templates;\n" if custom else "")
     head += "template Sub() {\n  signal input x;\n  signal output o;\n  o <== x;\n}\n"
     head += "template Sub2() {\n  signal input p;\n  signal input q;\n  signal output o;\n  o <== p * q;\n}\n"
     head += "template %sT(n) {\n  signal input in1;\n  signal input in2;\n  signal output s1;\n  signal output s2;\n  signal sa[2];\n" % ("custom " if custom else "")
-    head += "  signal t1;\n  signal t2;\n  signal u;\n  signal w;\n  signal z;\n  signal zz1;\n  signal zz2;\n  component c = Sub();\n  component cs[2];\n"
+    head += "  signal t1;\n  signal t2;\n  signal u;\n  signal w;\n  signal z;\n  signal zz1;\n  signal zz2;\n  component c = Sub();\n  component cs[2];\n  component c2 = Sub();\n"
     text = head
     nest = case["nest"]
     ind = "  "
@@ -121,6 +121,13 @@ def render(case, k):
             spans["CCA"] = (start, start + len(t))
             text += ind + "  " + t + "\n"
         text += ind + "}\n"
+    if "GCP" in case["items"]:
+        # a branch whose only statement assigns a component port from a parameter: no signal of the template occurs in the block
+        t = "c2.x <-- %s;" % ("n * n" if case["rhs"] == "q" else "n >> 1")
+        text += ind + "if (n == 3) {\n"
+        start = len((text + ind + "  ").encode())
+        spans["GCP"] = (start, start + len(t) - 1)
+        text += ind + "  " + t + "\n" + ind + "}\n"
     if nest != "none":
         text += "  }\n"
     text += "}\n"
@@ -184,7 +191,7 @@ def run(tier):
             l = r["primary"][0]
             m = re.search(r"`([^`]*)`", l["msg"])
             sig = norm_signal(m.group(1)) if m else "?"
-            owner = [it for it, (s, e) in spans.items() if s <= l["s"] and l["e"] <= e + 1 and it in ("G1", "GR", "GA", "GC", "GT", "GN", "GCA")]
+            owner = [it for it, (s, e) in spans.items() if s <= l["s"] and l["e"] <= e + 1 and it in ("G1", "GR", "GA", "GC", "GT", "GN", "GCA", "GCP")]
             if len(owner) != 1:
                 bad = ("assign:finding not anchored at a signal assignment statement", {"label": l})
                 break
